@@ -65,6 +65,19 @@ TEMPLATES = [
         Y(d), d.month, d.day, d.hour, d.minute)),
     T("compact_T_us", "us", lambda d: "%s%02d%02dT%02d%02d%02d.%06d" % (
         Y(d), d.month, d.day, d.hour, d.minute, d.second, d.microsecond)),
+    T("compact_T_us_comma", "us",
+      lambda d: "%s%02d%02dT%02d%02d%02d,%06d" % (
+          Y(d), d.month, d.day, d.hour, d.minute, d.second, d.microsecond)),
+    T("compact_T_ms_comma", "ms",
+      lambda d: "%s%02d%02dT%02d%02d%02d,%03d" % (
+          Y(d), d.month, d.day, d.hour, d.minute, d.second,
+          d.microsecond // 1000)),
+    T("compact_T_ms", "ms", lambda d: "%s%02d%02dT%02d%02d%02d.%03d" % (
+        Y(d), d.month, d.day, d.hour, d.minute, d.second,
+        d.microsecond // 1000)),
+    T("iso_T_ms_comma", "ms", lambda d: "%s-%02d-%02dT%02d:%02d:%02d,%03d" % (
+        Y(d), d.month, d.day, d.hour, d.minute, d.second,
+        d.microsecond // 1000)),
     # ctime / RFC 2822
     T("ctime", "s", lambda d: "%s %s %2d %02d:%02d:%02d %s" % (
         WD3[d.weekday()], MONTHS3[d.month - 1], d.day, d.hour, d.minute,
